@@ -3,6 +3,7 @@ import SJ.Props.TypedSrc
 import SJ.Props.C09Stream
 import SJ.Props.StreamTyped
 import SJ.Props.C09LineCol
+import SJ.Props.C09RawNested
 #print axioms SJ.Props.C09.c09_slice_reader
 #print axioms SJ.Props.C09.c09_str_slice_ignored
 #print axioms SJ.Props.C09.c09_str_slice_value
@@ -27,3 +28,8 @@ import SJ.Props.C09LineCol
 #print axioms SJ.Props.C09.c09_readers_in_step
 #print axioms SJ.Props.C09.c09_untyped_line_col
 #print axioms SJ.Props.C09.c09_typed_line_col
+#print axioms SJ.Props.C09.c09_raw_nested_slice_reader
+#print axioms SJ.Props.C09.c09_raw_map_slice_reader
+#print axioms SJ.Props.C09.c09_raw_one_slice_reader
+#print axioms SJ.Props.C09.c09_raw_nested_class
+#print axioms SJ.Props.C09.c09_raw_nested_str_slice
